@@ -250,7 +250,7 @@ def _run(ck: Check, probe) -> None:
             ck.nontrivial_add((di, "ser", j))
         # faults raised from inside the key's sign() at the j-th artifact
         nart = len(doc["packages"]) + len(doc.get("packages.conda", {}))
-        for j, sign_exc in [(j_, c_) for j_ in range(1, nart + 1) for c_ in (RuntimeError, faults.InjectedInterrupt)]:
+        for j, sign_exc in [(j_, c_) for j_ in range(1, nart + 1) for c_ in (RuntimeError, faults.InjectedInterrupt, faults.InjectedStop)]:
             put(fn, orig)
             calls = [0]
             real = impl.signing.serialize_and_sign
